@@ -2001,6 +2001,9 @@ class Exec(object):
         if fref.module in eng.spec_modules:
             return self.run_spec_function(fref, env)
         contract = None if self.concrete else eng.contracts.get(fq)
+        topc = eng.contracts.get(self.top_fq) if self.top_fq else None
+        if topc is not None and fq in (topc.get("inline_callees") or ()):
+            return self.run_function(fref, env, line)
         if contract is not None and not contract.get("inline"):
             return eng.apply_contract(self, fref, contract, env, line)
         if self.concrete or (contract is not None and contract.get("inline")) or fq in eng.inline or \
